@@ -127,4 +127,6 @@ func c07Extra(r *core.Run) {
 	c07R9(r)
 	// rule added after the robustness round's report (c07_r10.go)
 	c07R10(r)
+	// rule added after the tenth detection round (c07_r11.go)
+	c07R11(r)
 }
